@@ -273,7 +273,7 @@ def run(ctx):
     byid = {c["id"]: c for c in cases}
     ctx.sample({k: v for k, v in cases[0].items() if k in ("id", "tamper", "res", "is_change")})
     ctx.sample({"tamperings": TAMPERS})
-    bad = ctx.validate("psbt/C11Cases.tla", [{k: v for k, v in c.items() if k != "kind_"} for c in cases], "C11Cases.cfg", timeout=3000, per_shard_min=6)
+    bad = ctx.validate("psbt/C11Cases.tla", [{k: v for k, v in c.items() if k != "kind_"} for c in cases], "C11Cases.cfg", timeout=7200, per_shard_min=6)
     for cid, why in bad.items():
         c = byid[cid]
         ctx.violation("%s:%s" % (why, c["kind_"]), "case %s (%s %d-of-%d): %s" % (cid, c["kind_"], c["m"], c["n"], why), {"kind": "case", "case": c})
